@@ -301,37 +301,100 @@ theorem C19_validation_legacy (es : List Entry) :
 example : legacyRejects [[.ip ⟨true, 1⟩], [.ip ⟨true, 2⟩]] = true ∧ legacyRejects [[.ip ⟨true, 1⟩], [.ip ⟨false, 2⟩]] = false := by
   decide
 
-/-- The sanitizer of the public option `WithAddressRewriteRules` accepts a rule whose externals
-contain no unparsable string and at least one address, whose Local parses and whose mode is 0/1/2 … -/
-theorem C19_validation_option_partial (r : Rule) (hbad : r.ext.contains .bad = false)
-    (hne : ∃ ip, IPTok.ok ip ∈ r.ext) (hl : r.loc ≠ .bad) (hm : r.mode ≤ 2) :
-    ∃ r', sanitizeRule r = .ok r' := by
-  unfold sanitizeRule
-  obtain ⟨out, ho⟩ := sanitizeExts_ok r.ext [] hbad (Or.inr hne)
-  rw [ho]
-  simp only [hl, if_false]
-  by_cases h0 : r.mode = 0
-  · simp [h0]
-  · simp only [h0, if_false]
-    have : r.mode = 1 ∨ r.mode = 2 := by omega
-    simp [this]
+/-- The sanitizer of the public option `WithAddressRewriteRules` (`sanitizeAddressRewriteRule`) accepts
+EXACTLY the documented rules: no unparsable external string, an External list that is EMPTY (the
+documented deny / no-op rule: replace drops the matched candidate, append keeps it) or names at least one
+address, a Local that parses (or is absent), mode 0/1/2. What it hands on is the same rule with the
+addresses of the External list (blank entries dropped) and the mode default filled in; an empty External
+list stays empty. (Was `C19_validation_option_partial` + `_witness` before /repo 446b13f: finding F16.) -/
+theorem C19_validation_option (r : Rule) :
+    ((∃ r', sanitizeRule r = .ok r') ↔
+      (r.ext.contains .bad = false ∧ (r.ext = [] ∨ ∃ ip, IPTok.ok ip ∈ r.ext) ∧ r.loc ≠ .bad ∧ r.mode ≤ 2))
+    ∧ (∀ r', sanitizeRule r = .ok r' →
+        (∀ t, t ∈ r'.ext ↔ t ∈ r.ext ∧ ∃ ip, t = .ok ip) ∧ (r.ext = [] → r'.ext = [])
+        ∧ r'.mode = (if r.mode = 0 then defaultMode r.ctype else r.mode)
+        ∧ r'.ctype = r.ctype ∧ r'.iface = r.iface ∧ r'.cidr = r.cidr ∧ r'.loc = r.loc ∧ r'.nets = r.nets) :=
+  sanitizeRule_spec r
 
 example : ∃ r', sanitizeRule (f3Rules.head!) = .ok r' := ⟨_, rfl⟩
+-- the documented "drop" rule (empty External, replace) and the no-op rule (empty External, append, catch-all with
+-- CIDR / Iface / Networks) pass unchanged; a list of blank entries only, an unparsable entry, a bad Local are rejected
+example : sanitizeRule { ctype := 1, mode := 1, iface := "", cidr := .none, loc := .ok ⟨true, 167772165⟩, nets := [], ext := [] }
+    = .ok { ctype := 1, mode := 1, iface := "", cidr := .none, loc := .ok ⟨true, 167772165⟩, nets := [], ext := [] } := by rfl
+example : sanitizeRule { ctype := 2, mode := 0, iface := "eth0", cidr := .ok ⟨true, 167772160, 24⟩, loc := .none, nets := [1], ext := [] }
+    = .ok { ctype := 2, mode := 2, iface := "eth0", cidr := .ok ⟨true, 167772160, 24⟩, loc := .none, nets := [1], ext := [] } := by rfl
+example : sanitizeRule { ctype := 1, mode := 1, iface := "", cidr := .none, loc := .none, nets := [], ext := [.blank, .blank] } = .error .invalid := by rfl
+example : sanitizeRule { ctype := 1, mode := 1, iface := "", cidr := .none, loc := .none, nets := [], ext := [.blank, .ok ⟨true, 1⟩, .blank, .ok ⟨true, 1⟩] }
+    = .ok { ctype := 1, mode := 1, iface := "", cidr := .none, loc := .none, nets := [], ext := [.ok ⟨true, 1⟩] } := by rfl
+example : sanitizeRule { ctype := 1, mode := 1, iface := "", cidr := .none, loc := .none, nets := [], ext := [.ok ⟨true, 1⟩, .bad] } = .error .invalid := by rfl
 
-/-- … F16: the full statement "a rule set the documentation calls valid is accepted" is FALSE for the
-public option: the documented empty-External rule (replace = drop the candidate, append = no-op) is
-rejected by `sanitizeExternalIPs`, while `newAddressRewriteMapper` itself accepts it. -/
-theorem C19_validation_option_witness :
-    ¬ (∀ rules : List Rule, docRejects rules = false → outsideDomain rules = false →
-        ∃ clean, sanitizeAll rules = .ok clean) := by
-  intro h
-  obtain ⟨clean, hc⟩ := h [{ ctype := 1, mode := 1, iface := "", cidr := .none, loc := .ok ⟨true, 167772165⟩, nets := [], ext := [] }]
-    (by decide) (by decide)
-  revert hc
-  simp [sanitizeAll, sanitizeRule, sanitizeExts]
+/-- "A rule set the documentation calls valid is accepted" holds for the public option (the statement whose
+negation was `C19_validation_option_witness` while F16 was open): whatever `docRejects` does not reject
+(inside the input domain) passes the sanitizer — in particular every rule with an empty External list. -/
+theorem C19_validation_option_accepts_documented (rules : List Rule)
+    (hd : docRejects rules = false) (ho : outsideDomain rules = false) :
+    ∃ clean, sanitizeAll rules = .ok clean := by
+  induction rules with
+  | nil => exact ⟨[], rfl⟩
+  | cons r rs ih =>
+    simp only [docRejects, outsideDomain, List.any_cons, Bool.or_eq_false_iff] at hd ho ih
+    obtain ⟨clean, hc⟩ := ih hd.2 ho.2
+    have hblank : r.ext.contains .blank = false := ho.1.1.1
+    have hmode : r.mode ≤ 2 := by simpa using ho.1.1.2
+    have hill : illFormed r = false := by
+      cases hi : inert r with
+      | true => simpa [hi] using ho.1.2
+      | false => simpa [hi] using hd.1.2
+    simp only [illFormed, Bool.or_eq_false_iff] at hill
+    have hbad : r.ext.contains .bad = false := hill.2
+    have hloc : r.loc ≠ .bad := by simpa using hill.1.1.2
+    have hext : r.ext = [] ∨ ∃ ip, IPTok.ok ip ∈ r.ext := by
+      cases hx : r.ext with
+      | nil => exact Or.inl rfl
+      | cons t ts =>
+        right
+        rw [hx] at hblank hbad
+        cases t with
+        | ok ip => exact ⟨ip, List.mem_cons_self⟩
+        | bad => simp at hbad
+        | blank => simp at hblank
+    obtain ⟨r', hr'⟩ := (C19_validation_option r).1.mpr ⟨hbad, hext, hloc, hmode⟩
+    exact ⟨r' :: clean, by simp [sanitizeAll, hr', hc]⟩
+
+/-- regression for the former F16 witness: the documented "drop this host address" rule is configurable
+through the option and compiles to the same mapper as on the in-package path -/
+example : sanitizeAll [{ ctype := 1, mode := 1, iface := "", cidr := .none, loc := .ok ⟨true, 167772165⟩, nets := [], ext := [] }]
+    = .ok [{ ctype := 1, mode := 1, iface := "", cidr := .none, loc := .ok ⟨true, 167772165⟩, nets := [], ext := [] }] := by rfl
+example : docRejects [{ ctype := 1, mode := 1, iface := "", cidr := .none, loc := .ok ⟨true, 167772165⟩, nets := [], ext := [] }] = false
+    ∧ outsideDomain [{ ctype := 1, mode := 1, iface := "", cidr := .none, loc := .ok ⟨true, 167772165⟩, nets := [], ext := [] }] = false := by decide
 
 example : (newMapper [{ ctype := 1, mode := 1, iface := "", cidr := .none, loc := .ok ⟨true, 167772165⟩, nets := [], ext := [] }]).toOption.isSome = true := by
   rfl
+
+/-- The whole public path (`WithAddressRewriteRules`, then `newAddressRewriteMapper` as `NewAgent` calls it) rejects
+EXACTLY what the documentation calls invalid plus the rules whose External list holds blank entries only
+(`optionRejects`); every other rule set of the domain — the empty-External rules included — is accepted. This is the
+validation monitor of the option path (`newViolation .option`) stated about the model. -/
+theorem C19_validation_option_path (rules : List Rule) (ho : outsideDomainOn .option rules = false) :
+    (∃ e, optionPath rules = .error e) ↔ optionRejects rules = true := by
+  obtain ⟨s1, s2⟩ := sanitizeAll_spec rules ho
+  unfold optionPath
+  cases h : sanitizeAll rules with
+  | error e => exact ⟨fun _ => s1 e h, fun _ => ⟨e, rfl⟩⟩
+  | ok clean =>
+    obtain ⟨hnb, hab, hdr⟩ := s2 clean h
+    simp only [optionRejects, hab, Bool.or_false]
+    rw [← hdr]
+    exact (C19_validation clean hnb).1
+
+example : outsideDomainOn .option [{ ctype := 1, mode := 1, iface := "", cidr := .none, loc := .none, nets := [], ext := [] }] = false
+    ∧ optionRejects [{ ctype := 1, mode := 1, iface := "", cidr := .none, loc := .none, nets := [], ext := [] }] = false := by decide
+example : outsideDomainOn .option [{ ctype := 1, mode := 1, iface := "", cidr := .none, loc := .none, nets := [], ext := [.blank, .blank] }] = false
+    ∧ optionRejects [{ ctype := 1, mode := 1, iface := "", cidr := .none, loc := .none, nets := [], ext := [.blank, .blank] }] = true := by decide
+example : newViolation .option [{ ctype := 1, mode := 1, iface := "", cidr := .none, loc := .none, nets := [], ext := [] }] (some .invalid)
+    = some "valid rule set rejected at construction" := by decide
+example : newViolation .option [{ ctype := 1, mode := 1, iface := "", cidr := .none, loc := .none, nets := [], ext := [.blank] }] none
+    = some "invalid rule set accepted at construction" := by decide
 
 /-! ## more of external_ip_mapper.go REGENERATED and proved equal to the model (`IceTie/Rewrite2.lean`, `IceTie/Rewrite.lean`) -/
 
